@@ -67,6 +67,13 @@ class NativeVM:
     def new_run(self, name, lo=0, hi=None, fill=None):
         rid, n, fill2 = self._next('run', name)
         b = run_bytes(rid, n, fill if fill is not None else fill2)
+        planted = [(int(k.split('|')[2]), v) for k, v in self.named.items() if k.startswith(f'runbyte|{rid}|')]
+        if planted:
+            b = bytearray(b)
+            for off, v in planted:
+                if 0 <= off < len(b):
+                    b[off] = v
+            b = bytes(b)
         self.runs[rid] = b
         return b
 
